@@ -17,6 +17,7 @@ import (
 	"sort"
 	"strconv"
 	"strings"
+	"time"
 
 	"github.com/edutko/decipher/internal/file"
 	"github.com/edutko/decipher/internal/util"
@@ -512,6 +513,8 @@ func c18PN(m int64, e int, lit string) c18Val { return c18Val{kind: 1, mant: m, 
 
 func genC18(c *Ctx) {
 	r := c.R
+	// a local zone that is not UTC, so that formatting a date in local time would show
+	time.Local = time.FixedZone("verif", 5*3600+1800)
 	kv := func(k string, v c18Val) c18KV { return c18Plain(r, k, v) }
 	hs256 := c18Obj{kv("alg", c18PS("HS256"))}
 
